@@ -86,6 +86,21 @@ class Path:
                 if p0 is None or pos is None or not _mutated_between(self.events[p0:pos], g):
                     return False
             seen.setdefault(g, pos)
+        # compound tests of values computed earlier (`if writer is not None` with writer chosen by two earlier
+        # branches): the conjunction with the literals of those branches must be satisfiable
+        def compound(g):
+            return isinstance(g, tuple) and g and (g[0] in ("and", "or") or
+                                                   (g[0] == "not" and isinstance(g[1], tuple) and g[1] and g[1][0] in ("and", "or")))
+        comp = [g for g, pos in zip(self.guards, self.gpos) if pos is None and compound(g)]
+        if comp:
+            from .rules import boolalg
+            stable = [g for g in seen if not compound(g) and ir.negate(g) not in seen and
+                      not (isinstance(g, tuple) and g and g[0] == "handler")]
+            try:
+                if not boolalg.satisfiable(("and", tuple(stable) + tuple(comp))):
+                    return False
+            except ValueError:
+                pass
         return True
 
     def __repr__(self):
